@@ -198,6 +198,39 @@ pub fn test_case(c: &ReproCase, stats: &mut Stats) -> Result<(), String>
         }
     }
 
+    // nothing repaired, build again: the same verdict again (a failed build must not make the next one forget the record)
+    if !differing.is_empty()
+    {
+        let b2b = w.invoke(Inv::Build(None), &sched, None);
+        if let Some(m) = history::describe_abnormal(&b2b) { return Err(m); }
+        let ran_again = b2b.executed_rules(&w.model).contains(&ri);
+        if ran_again
+        {
+            match &b2b.result
+            {
+                Some(Err(ErrSum::WorkErrors(v))) if v.len() == 1 && matches!(&v[0], WErr::Contradiction(p) if p.iter().cloned().collect::<BTreeSet<String>>() == differing) => {}
+                other => return Err(format!("the contradicting build was repeated with nothing repaired and the command ran again; the first time it named {:?}, the second time the build returned {:?}", differing, other)),
+            }
+        }
+        else
+        {
+            // ruler may instead bring the recorded outputs back from the cache without running anything: then the
+            // targets must hold exactly what was recorded
+            for t in rule.targets.iter()
+            {
+                if b2b.ok() && b2b.post.get(t).map(|f| &f.data) != Some(&recorded[t])
+                {
+                    return Err(format!("the repeated build ran no command and reported success, but {} does not hold the recorded output", t));
+                }
+            }
+            stats.class("repeat-resolved-from-cache");
+        }
+        if read_history(&w, &rule)? != hist_before
+        {
+            return Err(format!("the history of rule {:?} changed when the contradicting build was repeated", rule.targets));
+        }
+        stats.class("contradiction-repeated");
+    }
     // input restored, forced again: the third build succeeds without contradiction
     w.sys.tick();
     w.sys.h_write(UNDECL, b"one");
@@ -234,7 +267,7 @@ pub fn test_case(c: &ReproCase, stats: &mut Stats) -> Result<(), String>
 
 pub fn strategy(max_rules: usize) -> impl Strategy<Value = ReproCase>
 {
-    let mix = OpMix { rule_edits: false, ruler_dir_damage: false, cleans: true, delete_leaf: false, swaps: 1, dir_ops: 0 };
+    let mix = OpMix { rule_edits: false, ruler_dir_damage: false, cleans: true, delete_leaf: false, swaps: 1, dir_ops: 0, orphan: false };
     (
         gen::graph_spec(max_rules, false).prop_map(|mut g| { for r in g.rules.iter_mut() { if r.n_targets < 2 && r.srcs.len() % 2 == 0 { r.n_targets = 2; } } g }),
         any::<u16>(), 0u8..8, any::<u16>(), any::<bool>(), gen::ops(mix, 5), prop_oneof![1 => Just(0u16), 1 => any::<u16>()],
